@@ -113,21 +113,23 @@ def collapse(p):
 
 
 def config(tier, seed):
+    """Point budgets "p" = (one contour, two contours in total, glyph with a component)."""
     lat = LATTICES3[seed % len(LATTICES3)]
+    lat4 = lat + [LATTICE4_EXTRA[seed % len(LATTICE4_EXTRA)]]
     if tier == "quick":
         return {
-            "seg": [{"lat": lat, "p": (6, 4, 3), "comps": COMPS_QUICK}],
+            "seg": [{"lat": lat, "p": (5, 4, 3), "comps": COMPS_QUICK},
+                    {"lat": lat4, "p": (4, 3, 2), "comps": COMPS_QUICK}],
             "pts": [{"lat": lat, "p": (4, 3, 2), "comps": COMPS_QUICK, "style": 0},
                     {"lat": lat, "p": (3, 3, 2), "comps": COMPS_QUICK, "style": 1},
                     {"lat": lat, "p": (3, 3, 2), "comps": COMPS_QUICK, "style": 2}],
             "pairs": [],
         }
-    lat4 = lat + [LATTICE4_EXTRA[seed % len(LATTICE4_EXTRA)]]
     comps = COMPS_QUICK + COMPS_MORE
     return {
-        "seg": [{"lat": lat, "p": (7, 5, 4), "comps": comps},
+        "seg": [{"lat": lat, "p": (6, 5, 3), "comps": comps},
                 {"lat": lat4, "p": (5, 4, 3), "comps": COMPS_QUICK}],
-        "pts": [{"lat": lat, "p": (6, 4, 3), "comps": comps, "style": 0},
+        "pts": [{"lat": lat, "p": (5, 4, 3), "comps": comps, "style": 0},
                 {"lat": lat, "p": (4, 3, 2), "comps": COMPS_QUICK, "style": 1},
                 {"lat": lat, "p": (4, 3, 2), "comps": COMPS_QUICK, "style": 2},
                 {"lat": lat4, "p": (4, 3, 2), "comps": COMPS_QUICK, "style": 0}],
@@ -405,6 +407,51 @@ def image_seg_point_seg(calls, oicl):
     return out
 
 
+def image_reverse_points(calls):
+    """Documented image of ReverseContourPointPen on point-pen calls: closed contours keep
+    their first point and run backwards after it (reversed[N] == original[-N]), open contours
+    are simply reversed and start with 'move'; every point keeps smooth/name/identifier; an
+    on-curve point receives the type of the segment that used to *leave* it (the type of the
+    next on-curve point of the original), which is the segment now arriving at it."""
+    out = []
+    cur = None
+    for c in calls:
+        if c[0] == "b":
+            cur = []
+            out.append(c)
+        elif c[0] == "p":
+            cur.append(c)
+        elif c[0] == "e":
+            n = len(cur)
+            if n:
+                opn = cur[0][2] == "move"
+                ons = [i for i in range(n) if cur[i][2] is not None]
+                newtype = {}
+                for k, i in enumerate(ons):
+                    if k + 1 < len(ons):
+                        newtype[i] = cur[ons[k + 1]][2]
+                    else:
+                        newtype[i] = "move" if opn else cur[ons[0]][2]
+                order = list(range(n - 1, -1, -1)) if opn else [0] + list(range(n - 1, 0, -1))
+                for i in order:
+                    pc = cur[i]
+                    out.append(("p", pc[1], newtype.get(i)) + tuple(pc[3:]))
+            cur = None
+            out.append(c)
+        else:
+            out.append(c)
+    return out
+
+
+def lone_points_as_move(calls):
+    """single-point contours compare as 'move' (a lone point cannot be closed)"""
+    out = list(calls)
+    for i in range(1, len(out) - 1):
+        if out[i][0] == "p" and out[i - 1][0] == "b" and out[i + 1][0] == "e" and out[i][2] is not None:
+            out[i] = ("p", out[i][1], "move") + tuple(out[i][3:])
+    return out
+
+
 # ---------------------------------------------------------------------------------------------
 # the adapters of the segment side
 def tt_ok(contours):
@@ -595,6 +642,14 @@ def check_seg_glyph(calls, rec, case, _collect=False):
                     break
         else:
             R.bad(name, "contour-count", "%d contours in, %d out" % (len(contours), len(oc)))
+        # point structure (coincident points included): the reversed outline seen through
+        # SegmentToPointPen is the documented point reversal of the outline seen the same way
+        pa = M.PtRec()
+        rec.transition(M.feed_seg(calls, ReverseContourPen(SegmentToPointPen(pa, guessSmooth=False), outputImpliedClosingLine=oicl)))
+        pb = M.PtRec()
+        M.feed_seg(calls, SegmentToPointPen(pb, guessSmooth=False))
+        want_pts = lone_points_as_move(image_reverse_points(pb.calls))
+        R.same_calls(name, lone_points_as_move(pa.calls), want_pts, "point-structure")
         # exact signed area negates
         if M.all_closed(contours):
             a0 = geom.signed_area(M.expand(contours))
@@ -989,17 +1044,8 @@ def check_pts_glyph(calls, rec, case, _collect=False):
         if len(oconts) != len(in_contours):
             R.bad(name, "contour-count", "%d contours in, %d out" % (len(in_contours), len(oconts)))
             return
-        for (i0, p0), (i1, p1) in zip(in_contours, oconts):
-            # attributes travel with their point; closed contours keep their first point
-            if p0 and p0[0][2] == "move":
-                order = list(reversed(p0))
-            else:
-                order = p0[:1] + list(reversed(p0[1:]))
-            got = [(p[1],) + tuple(p[3:]) for p in p1]
-            want = [(p[1],) + tuple(p[3:]) for p in order]
-            if i0 != i1 or got != want:
-                R.bad(name, "point-order", "points (with smooth/name/identifier) are not the documented reversal", observed=[i1, got], expected=[i0, want])
-                return
+        if not R.same_calls(name, out.calls, image_reverse_points(calls), "image"):
+            return
         if M.all_closed(contours):
             a0 = geom.signed_area(M.expand(contours))
             a1 = geom.signed_area(M.expand(oc))
